@@ -39,7 +39,56 @@ def main():
             except KeyError:
                 viol.append(f'remote={remote}: table has no entry for {t.__name__} although copyreg.dispatch_table has')
     viol += optin_sweep()
+    viol += protocol_sweep()
     print(json.dumps({'violates': bool(viol), 'violations': viol[:8], 'scenario': json.loads(sys.argv[1])}))
+
+
+class AskedProtocol:
+    """does not opt in; records the protocol its __reduce_ex__ is asked for"""
+    def __init__(self, seen=None):
+        self.seen = seen
+
+    def __reduce_ex__(self, protocol):
+        return (AskedProtocol, (protocol,))
+
+
+class Slotted:
+    """__slots__ without __getstate__: standard pickle refuses it below protocol 2"""
+    __slots__ = ('a',)
+
+    def __init__(self):
+        self.a = 1
+
+
+def protocol_sweep():
+    """L4: dump / dumps with every protocol (None, 0 .. HIGHEST) must do what pickle does with that protocol"""
+    import io
+    out = []
+
+    def outcome(fn):
+        try:
+            return ('ok', fn())
+        except Exception as e:     # noqa
+            return ('raises', type(e).__name__)
+    for remote in (True, False):
+        for proto in [None] + list(range(0, pickle.HIGHEST_PROTOCOL + 1)):
+            std = outcome(lambda: pickle.loads(pickle.dumps([AskedProtocol(), 1], protocol=proto))[0].seen)
+            got = outcome(lambda: rp.loads(rp.dumps([AskedProtocol(), 1], protocol=proto, remote=remote))[0].seen)
+            if std != got:
+                out.append(f'dumps(protocol={proto!r}, remote={remote}): a non-opt-in object is asked to reduce itself for protocol {got}, standard pickle asks for {std}')
+
+            def via_dump():
+                b = io.BytesIO()
+                rp.dump([AskedProtocol(), 1], b, protocol=proto, remote=remote)
+                return rp.loads(b.getvalue())[0].seen
+            got = outcome(via_dump)
+            if std != got:
+                out.append(f'dump(protocol={proto!r}, remote={remote}): a non-opt-in object is asked to reduce itself for protocol {got}, standard pickle asks for {std}')
+            std = outcome(lambda: type(pickle.loads(pickle.dumps(Slotted(), protocol=proto))).__name__)
+            got = outcome(lambda: type(rp.loads(rp.dumps(Slotted(), protocol=proto, remote=remote))).__name__)
+            if std != got:
+                out.append(f'dumps(protocol={proto!r}, remote={remote}) of a __slots__ object without __getstate__: {got}, standard pickle: {std}')
+    return out[:6]
 
 
 def optin_sweep():
